@@ -2,32 +2,7 @@
 // vocabulary of unit `nuts` that the contract of `nuts::draw` (prelude.rs) refers to -- SAME TEXT as
 // units/nuts/lemmas.rs (pow2, has, dir_sample_post, draw_post)
 // =====================================================================================
-pub open spec fn pow2(n: nat) -> int decreases n { if n == 0 { 1 } else { 2 * pow2((n - 1) as nat) } }
-/// `traj` holds a state for index i (named so that quantifiers have a stable trigger)
-pub open spec fn has(t: Map<int, StateView>, i: int) -> bool { t.dom().contains(i) }
-/// [C01.6] one fair coin per direction, mapped bijectively
-pub open spec fn dir_sample_post(l0: Seq<RngEv>, l1: Seq<RngEv>, r: Direction) -> bool {
-    l1 == l0.push(RngEv::Coin(r is Forward))
-}
-/// [C03.3] what a finished NUTS transition guarantees about the returned state and its statistics
-pub open spec fn draw_post(state: StateView, info: SampleInfo, init: StateView, traj: Map<int, StateView>,
-    steps: nat, dim: nat, opts: NutsOptions) -> bool
-{
-    let d = info.depth as nat;
-    // the draw is a state the integrator produced in this trajectory (or its start)
-    &&& has(traj, state.idx) && traj[state.idx] == state
-    &&& has(traj, 0) && traj[0] == init
-    // index 0 iff the chain did not move
-    &&& (state.idx == 0 ==> state == init)
-    &&& -(pow2(d) - 1) <= state.idx <= pow2(d) - 1
-    &&& (opts.target_integration_time is None ==> info.depth <= opts.maxdepth)
-    &&& info.depth <= 60
-    // step count of a depth-d trajectory
-    &&& pow2(d) - 1 <= steps <= 2 * pow2(d) - 1
-    &&& (dim == 0 ==> steps == 0 && state == init && info.depth == 0)
-    &&& (info.divergence_info is Some ==> !info.reached_maxdepth)
-    &&& (info.reached_maxdepth ==> steps == pow2(d) - 1)
-}
+//@include ../_shared/nuts_post.rs
 
 // =====================================================================================
 // Chain-level specification, written from the statements of C03 (.5), C05 (.5), C06 (.3), C16 (.1, .2)
@@ -43,8 +18,7 @@ pub open spec fn chain_div_post(info: Option<&DivergenceInfo>, opts: DivergenceS
 
 /// helper preconditions of `nuts::draw` (from unit nuts)
 pub open spec fn nuts_opts_ok(o: NutsOptions, step: real) -> bool {
-    &&& o.maxdepth <= 60
-    &&& o.extra_doublings == 0
+    &&& o.maxdepth as int + o.extra_doublings as int <= 60
     &&& (o.target_integration_time is Some ==> o.target_integration_time->Some_0.r() > 0real && step > 0real)
 }
 
@@ -81,7 +55,7 @@ pub open spec fn nd_frame<M: Math, R: rand::Rng, A: AdaptStrategy<M>>(c0: NutsCh
 pub open spec fn nd_state<M: Math, R: rand::Rng, A: AdaptStrategy<M>>(c0: NutsChain<M, R, A>, c1: NutsChain<M, R, A>, position: Box<[F]>, dim: nat) -> bool {
     &&& c1.collector.draws() == c0.collector.draws().push(c1.state.view())
     &&& c1.last_info is Some
-    &&& draw_post(c1.state.view(), c1.last_info->0, c1.collector.traj()[0], c1.collector.traj(), c1.collector.leapfrogs(), dim, c0.options)
+    &&& draw_post(c1.state.view(), c1.last_info->0, c1.collector.traj()[0], c1.collector.traj(), c1.collector.leapfrogs(), c1.collector.divs(), dim, c0.options)
     &&& position@.len() == dim
     &&& (c1.state.view().x.len() == dim ==> fvals(position@) == c1.state.view().x)
 }
